@@ -9,6 +9,7 @@ import DebInspector.Props.C03
 import DebInspector.Props.C04
 import DebInspector.Props.C05
 import DebInspector.Props.C07
+import DebInspector.Props.C08
 import DebInspector.Props.C10
 import DebInspector.Props.C11
 import DebInspector.Props.C12
@@ -31,6 +32,8 @@ def dispatch (op : String) (v : Val) : Option Val :=
   | "C04" => Props.C04.check.run v
   | "C05" => Props.C05.check.run v
   | "C07" => Props.C07.check.run v
+  | "C08" => Props.C08.check.run v
+  | "C08m" => Props.C08.checkM.run v
   | "C10" => Props.C10.check.run v
   | "C11" => Props.C11.check.run v
   | "C12" => Props.C12.check.run v
